@@ -88,17 +88,17 @@ INV_HARNESSES = [
                'thorough': [{'defines': ['NOPS=3'], 'bound': 'every sequence of 3 operations', 'timeout': 1500}]}},
 ]
 PAYOUT_HARNESSES = [
-    {'name': 'h_payout', 'src': 'real/h_payout.cpp', 'entry': 'h_payout', 'repo_srcs': srcsets_real.REAL, 'covers': [1, 2, 3], 'jobs': 16,
+    {'name': 'h_payout', 'src': 'real/h_payout.cpp', 'entry': 'h_payout', 'repo_srcs': srcsets_real.REAL, 'covers': [1, 2, 3, 4], 'jobs': 16,
      'obligations': ['REAL getPopPayout on the real trees == independent specification of who is paid what: the block paid is the tip\'s ancestor at the payout delay; only endorsements whose block of proof is on the VBK best chain count (a losing VBK fork does not, neither for the score nor for the best publication height); weights by relative VBK height from the lookup table; difficulty = averaged score of the preceding blocks (minimum 1); amounts of the same miner accumulate; nobody else is paid'],
-     'rungs': {'quick': [{'bound': 'ALT chain of 5, payout delay 3, averaging interval 2, table {1,1,0.5,0.25,0.1}; VBK best chain of 6 blocks and a losing fork of 2; two ATVs for the paid block (containing block 2 choices, block of proof 4 choices incl. the fork, miner 2 choices each), optional endorsement of the preceding block; arithmetic kernels taken from h_reward', 'timeout': 600}],
+     'rungs': {'quick': [{'bound': 'ALT chain of 6, payout delay 3, averaging interval 2, table {1,1,0.5,0.25,0.1}; VBK best chain of 6 blocks and a losing fork of 2; two ATVs for the paid block (block of proof 4 choices incl. the fork, miner 2 choices each); the two preceding blocks endorsed 0/1 and 0/3 times; arithmetic kernels taken from h_reward', 'timeout': 600}],
                'thorough': [{'bound': 'as quick', 'timeout': 900}]}},
 ]
 RELOAD_HARNESSES = [
-    {'name': 'h_reload', 'src': 'real/h_reload.cpp', 'entry': 'h_reload', 'repo_srcs': srcsets_real.REAL + ['src/pop/storage/adaptors/block_provider_impl.cpp'], 'covers': [1, 2, 3, 4], 'jobs': 16,
+    {'name': 'h_reload', 'src': 'real/h_reload.cpp', 'entry': 'h_reload', 'repo_srcs': srcsets_real.REAL + ['src/pop/storage/adaptors/block_provider_impl.cpp'], 'covers': [1, 2, 3, 4, 5], 'jobs': 16,
      'obligations': ['REAL trees saved with saveTrees() through the library adaptors (BlockBatchImpl/BlockReaderImpl over InmemStorageImpl: every index is serialized and parsed back) and loaded into a fresh AltBlockTree with loadTrees(): the loaded instance has the same blocks, heights, status bits, payload ids, endorsements, reference counts, chain work, tips and best chains in the ALT, VBK and BTC trees',
                      'the same holds after a continuation (switch / new block carrying an endorsement at the last timely distance / invalidate+revalidate / the body of an already saved header arrives) followed by an INCREMENTAL save (only dirty indices written)',
                      'after loading, both instances give the same verdict and reach the same state for one more setState; every index is clean after a save'],
-     'rungs': {'quick': [{'bound': 'ALT tree 1-2-{3,4}, 5 on 1; VBK context of 3 blocks, optional VTB (in ALT 2), optional ATVs (ALT 3, ALT 4), optional contextually invalid block 5; header-only block 7 on 3 with child 8 whose body is already there; any first tip; 5 continuations; normal and fast load; any final target', 'timeout': 450}],
+     'rungs': {'quick': [{'bound': 'ALT tree 1-2-{3,4}, 5 on 1; VBK context of 3 blocks, optional VTB (in ALT 2), optional ATVs (ALT 3, ALT 4), optional contextually invalid block 5; header-only block 7 on 3 with child 8 whose body is already there; any first tip; 6 continuations (incl. removal of an already saved fork block); normal and fast load; any final target', 'timeout': 450}],
                'thorough': [{'bound': 'as quick', 'timeout': 900}]}},
 ]
 SP_HARNESSES = [
